@@ -1,6 +1,8 @@
 package evaluator
 
 import (
+	"sort"
+
 	"github.com/Syuparn/pangaea/ast"
 	"github.com/Syuparn/pangaea/object"
 )
@@ -11,7 +13,10 @@ func evalKwargs(
 ) (*object.PanObj, *object.PanErr) {
 	pairMap := map[object.SymHash]object.Pair{}
 
-	for k, v := range kwargs {
+	// NOTE: evaluate kwargs in order of source code
+	// (map iteration order is random, which also affects which duplicated param remains)
+	for _, k := range sortedKwargKeys(kwargs) {
+		v := kwargs[k]
 		val := Eval(v, env)
 
 		if err, ok := val.(*object.PanErr); ok {
@@ -31,4 +36,25 @@ func evalKwargs(
 	obj, _ := (object.PanObjInstancePtr(&pairMap)).(*object.PanObj)
 
 	return obj, nil
+}
+
+func sortedKwargKeys(kwargs map[*ast.Ident]ast.Expr) []*ast.Ident {
+	keys := make([]*ast.Ident, 0, len(kwargs))
+	for k := range kwargs {
+		keys = append(keys, k)
+	}
+
+	sort.SliceStable(keys, func(i, j int) bool {
+		si, sj := keys[i].Source(), keys[j].Source()
+		if si == nil || sj == nil || si.Pos == sj.Pos {
+			// position is unknown (ast is not made by parser)
+			return keys[i].String() < keys[j].String()
+		}
+		if si.Pos.Line != sj.Pos.Line {
+			return si.Pos.Line < sj.Pos.Line
+		}
+		return si.Pos.Column < sj.Pos.Column
+	})
+
+	return keys
 }
